@@ -1,4 +1,4 @@
-import DoltVerif.Lemmas.CorruptBasic
+import DoltVerif.Lemmas.CorruptStages
 /-!
 C10 — Corrupted storage files are reported, never misread.
 
@@ -7,12 +7,11 @@ transliterations: where the Go code would slice / index out of range (or call a 
 they return `.error .panicWouldOccur`.  This file holds
 
 * `parse_total_no_panic_X` for the parsers that really are total on arbitrary bytes
-  (table footer, table index, archive footer; the journal-index parser has no slice expression),
+  (table footer, table index, manifest, journal index, archive footer),
 * for the parsers / accessors that are NOT panic-free, the full statement as a `def …_full : Prop`,
   its refutation by a concrete crashing file (`…_full_false`, replayed on the real code by the
   `corrupt` harness: corpus/C10) and the strongest partial statement proved,
-* `newCompressedChunk_ok` (the CRC check), `get_checked_full` / `intact_index_correct_data_full`
-  (statements, not proved in this round) and `C10_full` with its refutation.
+* `get_checked`, `intact_index_correct_data_partial`, and `C10_full` with its refutation.
 -/
 namespace DoltVerif.C10
 open DoltVerif.Corrupt DoltVerif.Corrupt.Table
@@ -146,25 +145,44 @@ theorem newCompressedChunk_ok {buff p : Bytes} (h : newCompressedChunk buff = .o
     · rw [if_neg h4] at h; exact absurd h (by intro h'; injection h')
   · rw [if_neg h1] at h; exact absurd h (by intro h'; injection h')
 
-/-- **get_checked** (statement): a successful table-file read returns a non-empty payload `p` that
-sits in the file at the (offset, length) the index gives for the address and passes
-`NewCompressedChunk` (so, by `newCompressedChunk_ok`, is followed by its own CRC-32C); the chunk
-handed to the caller is `dec p`.  NOT PROVED here: the case analysis over `Open.get` did not
-elaborate within the time budget of this round (no counterexample is known; the three facts are
-exactly the three `match` arms of `Open.get`).  `newCompressedChunk_ok` is the proved kernel. -/
-def get_checked_full : Prop :=
-  ∀ (o : Open) (h p : Bytes), o.get h = .ok (some p) →
+/-- **get_checked**: a successful table-file read returns a non-empty payload `p` that sits in the
+file at the (offset, length) the index gives for the address and passes `NewCompressedChunk`; the
+chunk handed to the caller is `dec p` (snappy) — nothing else is verified. -/
+theorem get_checked (o : Open) (h p : Bytes) (hg : o.get h = .ok (some p)) :
     ∃ off len buff, o.idx.lookup h = .ok (some (off, len)) ∧ readAt o.kind o.data off len = .ok buff ∧
-      newCompressedChunk buff = .ok p ∧ p ≠ []
+      newCompressedChunk buff = .ok p ∧ p ≠ [] := by
+  obtain ⟨e, hl, he⟩ := get_ok hg
+  obtain ⟨off, len, rfl, hch⟩ := getEntry_ok he
+  obtain ⟨buff, hr, hc, hp⟩ := getChunk_ok hch
+  exact ⟨off, len, buff, hl, hr, hc, hp⟩
 
-/-- **intact_index_correct_data** (statement): corruption confined to the data region (same index,
-same reader) gives an error or the same bytes as the intact file, provided CRC-32C behaves as an
-ideal checksum on the damage (`hideal`).  NOT PROVED here (same reason as `get_checked_full`). -/
-def intact_index_correct_data_full : Prop :=
-  ∀ (o o' : Open) (h p : Bytes), o'.idx = o.idx → o'.kind = o.kind →
-    (∀ off len buff', readAt o.kind o'.data off len = .ok buff' →
-      (∃ q, newCompressedChunk buff' = .ok q) → readAt o.kind o.data off len = .ok buff') →
-    o'.get h = .ok (some p) → o.get h = .ok (some p)
+/-- … and therefore is followed in the file by its own CRC-32C. -/
+theorem get_checked_crc (o : Open) (h p : Bytes) (hg : o.get h = .ok (some p)) :
+    ∃ off len buff, o.idx.lookup h = .ok (some (off, len)) ∧ readAt o.kind o.data off len = .ok buff ∧
+      p = buff.take (sub64 buff.length checksumSize) ∧
+      beNat ((buff.drop (sub64 buff.length checksumSize)).take 4) = crc32c p ∧ p ≠ [] := by
+  obtain ⟨off, len, buff, hl, hr, hc, hp⟩ := get_checked o h p hg
+  have := newCompressedChunk_ok hc
+  exact ⟨off, len, buff, hl, hr, this.1, this.2, hp⟩
+
+/-- **intact_index_correct_data_partial**: corruption confined to the data region (same index,
+same reader) gives an error or the same bytes as the intact file, *provided* CRC-32C behaves as an
+ideal checksum on the damage (`hideal`: a record of the damaged data that passes
+`NewCompressedChunk` is the record the intact file has at that place). -/
+theorem intact_index_correct_data_partial (o o' : Open) (h p : Bytes)
+    (hidx : o'.idx = o.idx) (hkind : o'.kind = o.kind)
+    (hideal : ∀ off len buff', readAt o.kind o'.data off len = .ok buff' →
+      (∃ q, newCompressedChunk buff' = .ok q) → readAt o.kind o.data off len = .ok buff')
+    (hg : o'.get h = .ok (some p)) : o.get h = .ok (some p) := by
+  obtain ⟨off, len, buff, hl, hr, hc, hp⟩ := get_checked o' h p hg
+  rw [hidx] at hl
+  rw [hkind] at hr
+  exact get_of hl (hideal off len buff hr ⟨p, hc⟩) hc hp
+
+/-- without `hideal` the statement is `C10`-style false only through CRC collisions; the hypothesis
+is satisfiable (take the undamaged file itself) -/
+example (o : Open) (h p : Bytes) (hg : o.get h = .ok (some p)) : o.get h = .ok (some p) :=
+  intact_index_correct_data_partial o o h p rfl rfl (fun _ _ _ hr _ => hr) hg
 
 /-! ### Bool-valued observers (so that concrete files can be checked by `decide +kernel`) -/
 
@@ -261,23 +279,53 @@ theorem get_panics_on_short_length :
 
 /-! ### manifest -/
 
-def manifest_no_panic_full : Prop := ∀ b : Bytes, Manifest.parseManifest b ≠ .error .panicWouldOccur
+/-- `parseManifest` (version prefix loop, v4 and v5 bodies, `parseSpecs`) is total and panic-free
+on arbitrary bytes: every `slices[i]` follows the field-count guard and every hash field goes
+through `hash.MaybeParse`.  (Before the root-hash repair the root went through `hash.Parse`, this
+statement was false, and the file `wManifest` below crashed every open of the database; the check
+found it, see design/C10.md.) -/
+theorem parse_total_no_panic_manifest (b : Bytes) : Manifest.parseManifest b ≠ .error .panicWouldOccur := by
+  unfold Manifest.parseManifest
+  cases hv : Manifest.versionLoop 8 b [] with
+  | error e =>
+    intro hc
+    have : e = .panicWouldOccur := by simpa [bind, Except.bind] using hc
+    subst this; exact Manifest.versionLoop_no_panic 8 b [] hv
+  | ok vr =>
+    obtain ⟨version, rest⟩ := vr
+    simp only [bind, Except.bind]
+    split
+    · exact Manifest.parseV4_no_panic rest
+    · split
+      · exact Manifest.parseV5_no_panic rest
+      · simp [throw, throwThe, MonadExceptOf.throw]
 
 def zeros32 : Bytes := List.replicate 32 0x30
-/-- `5:x:<lock>:<root with a NUL byte>:<gcgen>` -/
+/-- `5:x:<lock>:<root with a NUL byte>:<gcgen>` — the former crashing file -/
 def wManifest : Bytes :=
   [0x35, 0x3a, 0x78, 0x3a] ++ zeros32 ++ [0x3a] ++ (List.replicate 31 0x30 ++ [0]) ++ [0x3a] ++ zeros32
 
-/-- FALSE: `parseV5Manifest`/`parseV4Manifest` parse the lock and gc-generation hashes with
-`hash.MaybeParse` but the ROOT hash with `hash.Parse`, which panics on a malformed string.  One
-damaged byte of the root field crashes every open of the database (harness keys
-`panic:man:nbs.parseV5Manifest`, `panic:man:nbs.parseV4Manifest`). -/
-theorem manifest_no_panic_full_false : ¬ manifest_no_panic_full := by
-  intro h; exact h wManifest (by apply isPanic_eq; decide +kernel)
+/-- it is now reported as an error (and its well-formed variant parses) -/
+example : (match Manifest.parseManifest wManifest with | .error .badHash => true | _ => false) = true := by
+  decide +kernel
+example : (match Manifest.parseManifest
+    ([0x35, 0x3a, 0x78, 0x3a] ++ zeros32 ++ [0x3a] ++ zeros32 ++ [0x3a] ++ zeros32) with | .ok _ => true | _ => false) = true := by
+  decide +kernel
 
-/-- the well-formed variant (one byte differs) does not panic -/
-example : isPanic (Manifest.parseManifest
-    ([0x35, 0x3a, 0x78, 0x3a] ++ zeros32 ++ [0x3a] ++ zeros32 ++ [0x3a] ++ zeros32)) = false := by decide +kernel
+/-! ### journal index records -/
+
+/-- `processIndexRecords` is total and panic-free on arbitrary bytes: the fixed-size arrays are
+decoded only after `io.ReadFull` delivered all of their bytes. -/
+theorem parse_total_no_panic_journalIndex (b : Bytes) : JIndex.process b ≠ .error .panicWouldOccur := by
+  obtain ⟨r, hr⟩ := JIndex.loop_ok (b.length + 1) b b.length 0 0 0 [] []
+  unfold JIndex.process
+  rw [hr]
+  intro h; cases h
+
+/-- one lookup followed by one meta record: one batch, truncation offset = 1+28+1+40 -/
+example : (match JIndex.process ([0] ++ List.replicate 28 7 ++ [1] ++ List.replicate 40 9) with
+    | .ok (bs, off, false) => bs.length == 1 && off == 70
+    | _ => false) = true := by decide +kernel
 
 /-! ### journal records -/
 
